@@ -178,6 +178,8 @@ pub fn run_scenario_full(sc: &Scenario, verbose: bool) -> (RunResult, Vec<(usize
         stats.add("adv.sent", a.sent);
         stats.add("adv.coop", a.coop_actions);
         stats.add("adv.deviations", a.deviations);
+        stats.add("probe.token_between_others_during_gap_poll_wait", a.interjections);
+        stats.add("probe.single_token_offer_after_interjection", a.single_offers);
     }
     stats.add("bus.collisions", w.bus.borrow().collisions.len() as u64);
     let mut violations = w.violations.borrow().clone();
